@@ -705,6 +705,9 @@ def check(ctx):
     ctx.rule("R9", "nothing of an earlier transfer is left for the next one: STATV carries no request identifier, so a segment still in the receive queue when a later transfer starts is read as ITS reply - the discard consumer, interpreted on a real peekable queue, removes a datagram nobody claimed after one mark-and-wait pass and survives doing so (C07.R7's discard-consumer model borrowed)")
     from .c07 import discard_consumer_model as _dcm
     _dcm(ctx.borrowed("R9", "C07"), repo, "R7")
+    ctx.rule("R10", "at most the CONFIGURED number of requests: the status-block request builders and the structures read the retry budget and the timeout when a request is made, not in a parameter default (evaluated once, at import) (C06.R9's rule on the transfer's own modules)")
+    from .c17 import config_read_at_definition as _crad1
+    _crad1(ctx, repo, "R10", only_mods=("/driver/protocol/statusblock.py", "/driver/spastruct.py", "/driver/async_spastruct.py"))
     async_assembly(ctx, repo)
     # the completed assembler keeps its segment list until the engine's clean-up removes the handler: the engine must
     # not dispatch a second datagram before that (engine model, vlib/enginemodel.py)
